@@ -114,6 +114,30 @@ fn measure(sc: &OpSc, m: i64, iset: &mut InstructionSet) -> Result<Cost, (PanicI
     measure_sized(sc, m, 0, iset)
 }
 
+/// The only real-time reading of this engine must not be fooled by a stalled machine (a
+/// descheduled or frozen VM): a reading above the limit is repeated, the fastest one counts.
+fn measure_steady(sc: &OpSc, m: i64, big: usize, iset: &mut InstructionSet) -> Result<Cost, (PanicInfo, u64)> {
+    let mut best = measure_sized(sc, m, big, iset);
+    for _ in 0..2 {
+        let wall = match &best {
+            Ok(c) => c.wall_ms,
+            Err((_, w)) => *w,
+        };
+        if wall <= 1_000 {
+            break;
+        }
+        let again = measure_sized(sc, m, big, iset);
+        let wall2 = match &again {
+            Ok(c) => c.wall_ms,
+            Err((_, w)) => *w,
+        };
+        if wall2 < wall {
+            best = again;
+        }
+    }
+    best
+}
+
 /// `big` > 0: the top NAME, the top vectors and the top CODE / EXEC items hold about `big`
 /// characters / elements / a tenth as many points (state-size scaling instead of operand scaling).
 fn measure_sized(sc: &OpSc, m: i64, big: usize, iset: &mut InstructionSet) -> Result<Cost, (PanicInfo, u64)> {
@@ -231,7 +255,7 @@ pub fn execute_op(sc: &OpSc, iset: &mut InstructionSet) -> OpResult {
         stats.steps += 1;
         // measured twice, the cheaper reading counts: one-time lazy initialisation
         // (thread-locals, formatting tables) is not a cost of the step
-        let first = measure(sc, m, iset);
+        let first = measure_steady(sc, m, 0, iset);
         let second = match &first {
             Ok(c) if c.bytes <= A_BYTES / 4 && c.wall_ms < 100 => measure(sc, m, iset),
             _ => Err((PanicInfo { msg: String::new(), file: String::new(), line: 0 }, 0)),
@@ -293,7 +317,7 @@ pub fn execute_op(sc: &OpSc, iset: &mut InstructionSet) -> OpResult {
     if stats.outcome.is_empty() && sc.seed % 4 == 0 {
         for big in [1_000usize, 10_000, 100_000] {
             stats.steps += 1;
-            let (cost, wall_ms) = match measure_sized(sc, 100, big, iset) {
+            let (cost, wall_ms) = match measure_steady(sc, 100, big, iset) {
                 Ok(c) => (Some(c.clone()), c.wall_ms),
                 Err((_p, w)) => (None, w),
             };
